@@ -599,3 +599,277 @@ Proof.
   destruct (patch_glyf f (map snd ivs) (ng - 1)) as [?|r] eqn:G; [discriminate|].
   rewrite (patch_glyf_perm _ _ _ _ _ Pv A G). exact H.
 Qed.
+
+(* ---------- font maps ---------- *)
+Lemma lookup_fb_add t d f x : lookup (fb_add t d f) x = if x =? t then Some d else lookup f x.
+Proof.
+  induction f as [|[t' d'] r IH]; cbn.
+  - destruct (x =? t); reflexivity.
+  - destruct (Z.ltb_spec t t').
+    + cbn. destruct (Z.eqb_spec x t); reflexivity.
+    + destruct (Z.eqb_spec t t').
+      * subst. cbn. destruct (Z.eqb_spec x t'); reflexivity.
+      * cbn. rewrite IH. destruct (Z.eqb_spec x t'); [|reflexivity].
+        destruct (Z.eqb_spec x t); [lia | reflexivity].
+Qed.
+
+Lemma memZ_true x l : memZ x l = true <-> In x l.
+Proof.
+  unfold memZ. rewrite existsb_exists. split.
+  - intros [y [Hy E]]. apply Z.eqb_eq in E. now subst.
+  - intros H. exists x. split; [exact H | apply Z.eqb_refl].
+Qed.
+
+Lemma lookup_not_in {A} (f : list (Z * A)) x : ~ In x (map fst f) -> lookup f x = None.
+Proof.
+  induction f as [|[t d] r IH]; cbn; [reflexivity|]. intros H.
+  destruct (Z.eqb_spec x t); [exfalso; apply H; now left|]. apply IH. tauto.
+Qed.
+
+Lemma lookup_copy_unprocessed f processed : NoDup (map fst f) -> forall fb x,
+  lookup (copy_unprocessed f processed fb) x =
+  if memZ x processed then lookup fb x
+  else match lookup f x with Some d => Some d | None => lookup fb x end.
+Proof.
+  unfold copy_unprocessed. induction f as [|[t d] r IH]; intros ND fb x; cbn [fold_left fst snd lookup].
+  - destruct (memZ x processed); reflexivity.
+  - inversion ND as [|? ? Hn ND']; subst. rewrite IH by assumption.
+    destruct (memZ x processed) eqn:Mx.
+    + destruct (memZ t processed) eqn:Mt; [reflexivity|]. rewrite lookup_fb_add.
+      destruct (Z.eqb_spec x t); [subst; congruence | reflexivity].
+    + destruct (Z.eqb_spec x t).
+      * subst. rewrite (lookup_not_in r t Hn). rewrite Mx. rewrite lookup_fb_add, Z.eqb_refl. reflexivity.
+      * destruct (memZ t processed); [reflexivity|]. rewrite lookup_fb_add.
+        destruct (Z.eqb_spec x t); [lia | reflexivity].
+Qed.
+
+(* every table other than glyf / loca / IFT / IFTX is byte-identical after glyph keyed application,
+   none appears and none disappears *)
+Lemma gk_core_other_tables f infos views F x : NoDup (map fst f) ->
+  gk_core f infos views = inr F ->
+  x <> T_glyf -> x <> T_loca -> x <> T_IFT -> x <> T_IFTX -> lookup F x = lookup f x.
+Proof.
+  intros ND H N1 N2 N3 N4. unfold gk_core in H.
+  destruct (lookup f T_maxp) as [mx|]; [|cbn in H; discriminate].
+  destruct (uN_at 2 mx 4) as [ng|]; [|cbn in H; discriminate]. cbn [bind] in H.
+  destruct (ng =? 0); [discriminate|].
+  destruct (forallb _ views); cbn [negb] in H; [|discriminate].
+  destruct (lists_tag views T_CFF); [discriminate|].
+  destruct (lists_tag views T_CFF2); [discriminate|].
+  assert (K : forall processed fb,
+     (forall y, In y processed -> y = T_glyf \/ y = T_loca \/ y = T_IFT \/ y = T_IFTX) ->
+     lookup fb x = None ->
+     (if lists_tag views T_gvar
+      then match lookup f T_gvar with Some _ => inl (98, 3) | None => inl (6, 17) end
+      else let? (ift', iftx') := mark_all (lookup f T_IFT, lookup f T_IFTX) infos in
+           let fb := match ift' with Some d => fb_add T_IFT d fb | None => fb end in
+           let fb := match iftx' with Some d => fb_add T_IFTX d fb | None => fb end in
+           inr (copy_unprocessed f processed fb)) = inr F -> lookup F x = lookup f x).
+  { intros processed fb Hp Hfb K.
+    destruct (lists_tag views T_gvar); [destruct (lookup f T_gvar); discriminate|].
+    destruct (mark_all _ infos) as [?|[ift' iftx']]; cbn [bind] in K; [discriminate|].
+    inversion K; subst F. rewrite lookup_copy_unprocessed by assumption.
+    destruct (memZ x processed) eqn:M.
+    { apply memZ_true in M. apply Hp in M. lia. }
+    destruct (lookup f x); [reflexivity|].
+    destruct iftx'; destruct ift'; rewrite ?lookup_fb_add;
+      repeat match goal with |- context [x =? ?t] => destruct (Z.eqb_spec x t); [lia|] end; exact Hfb. }
+  destruct (lists_tag views T_glyf).
+  - destruct (patch_glyf f views (ng - 1)) as [?|[g' l']]; cbn [bind] in H; [discriminate|].
+    eapply K; [| |exact H].
+    + cbn. intros y [<-|[<-|[<-|[<-|[]]]]]; auto.
+    + rewrite !lookup_fb_add.
+      destruct (Z.eqb_spec x T_loca); [lia|]. destruct (Z.eqb_spec x T_glyf); [lia|]. reflexivity.
+  - cbn [bind] in H. eapply K; [| |exact H].
+    + cbn. intros y [<-|[<-|[]]]; auto.
+    + reflexivity.
+Qed.
+
+(* ---------- bookkeeping ---------- *)
+Lemma apply_next_error_leaves_bookkeeping dec f inv noninv st e st' :
+  apply_next dec f inv noninv st = (inl e, st') -> st' = st.
+Proof.
+  assert (K : apply_non_invalidating dec f noninv st = (inl e, st') -> st' = st).
+  { unfold apply_non_invalidating. destruct (accumulate st noninv) as [?|[|a acc]].
+    - intros H; now inversion H.
+    - intros H; now inversion H.
+    - destruct (apply_glyph_keyed_patches dec f (a :: acc)); intros H; inversion H; reflexivity. }
+  unfold apply_next. destruct inv as [p|]; [|exact K].
+  destruct (lookup st (pi_uri p)) as [[data|]|]; [| exact K | intros H; now inversion H].
+  destruct (apply_table_keyed_patch dec f p data); intros H; inversion H; reflexivity.
+Qed.
+
+(* on success exactly the applied URIs are flipped: an invalidating patch flips only its own URI,
+   otherwise every non-invalidating URI of the group present in the map becomes Applied *)
+Lemma apply_next_success_flips dec f inv noninv st F st' :
+  apply_next dec f inv noninv st = (inr F, st') ->
+  (exists p, inv = Some p /\ (exists d, lookup st (pi_uri p) = Some (Some d)) /\ st' = set_applied st (pi_uri p)) \/
+  st' = fold_left (fun s i => set_applied s (pi_uri i)) noninv st.
+Proof.
+  assert (K : apply_non_invalidating dec f noninv st = (inr F, st') ->
+              st' = fold_left (fun s i => set_applied s (pi_uri i)) noninv st).
+  { unfold apply_non_invalidating. destruct (accumulate st noninv) as [?|[|a acc]]; try (intros H; now inversion H).
+    destruct (apply_glyph_keyed_patches dec f (a :: acc)); intros H; inversion H; reflexivity. }
+  unfold apply_next. destruct inv as [p|]; [|intros H; right; auto].
+  destruct (lookup st (pi_uri p)) as [[data|]|] eqn:L; [| intros H; right; auto | intros H; now inversion H].
+  destruct (apply_table_keyed_patch dec f p data); intros H; inversion H. left. exists p. eauto.
+Qed.
+
+Lemma set_applied_other st u x : x <> u -> lookup (set_applied st u) x = lookup st x.
+Proof.
+  intros N. induction st as [|[k v] r IH]; cbn; [reflexivity|].
+  destruct (Z.eqb_spec k u); cbn; destruct (Z.eqb_spec x k); try reflexivity; try lia; exact IH.
+Qed.
+
+(* ---------- table keyed ---------- *)
+Fixpoint tk_first (es : list (res tk_entry)) (x : Z) : option tk_entry :=
+  match es with
+  | [] => None
+  | inl _ :: _ => None
+  | inr (t, fl, ml, s) :: r => if x =? t then Some (t, fl, ml, s) else tk_first r x
+  end.
+
+Lemma memZ_false x l : memZ x l = false <-> ~ In x l.
+Proof.
+  rewrite <- memZ_true. destruct (memZ x l); split; intros H; congruence.
+Qed.
+
+Lemma tk_fold_spec dec f : forall es k processed fb processed' fb',
+  tk_fold dec f es k processed fb = inr (processed', fb') ->
+  (forall x, In x processed -> lookup fb' x = lookup fb x /\ In x processed') /\
+  (forall x, ~ In x processed ->
+     match tk_first es x with
+     | None => lookup fb' x = lookup fb x /\ ~ In x processed'
+     | Some (t, fl, ml, s) =>
+         In x processed' /\
+         if Z.testbit fl 1 then lookup fb' x = lookup fb x
+         else exists k' out, dec k' s (if Z.testbit fl 0 then None else lookup f x) ml = inr out /\
+                             lookup fb' x = Some out
+     end).
+Proof.
+  induction es as [|[e|[[[t fl] ml] s]] r IH]; intros k processed fb processed' fb' H.
+  - cbn in H. inversion H; subst. split; intros; cbn; auto.
+  - discriminate.
+  - cbn [tk_fold] in H. destruct (memZ t processed) eqn:M.
+    + destruct (IH _ _ _ _ _ H) as [I1 I2]. split; [exact I1|].
+      intros x Hx. cbn [tk_first]. apply memZ_true in M.
+      destruct (Z.eqb_spec x t); [subst; contradiction | now apply I2].
+    + apply memZ_false in M.
+      assert (Step : forall k2 fb2,
+        tk_fold dec f r k2 (t :: processed) fb2 = inr (processed', fb') ->
+        (forall x, x <> t -> lookup fb2 x = lookup fb x) ->
+        (if Z.testbit fl 1 then lookup fb2 t = lookup fb t
+         else exists k' out, dec k' s (if Z.testbit fl 0 then None else lookup f t) ml = inr out /\
+                             lookup fb2 t = Some out) ->
+        (forall x, In x processed -> lookup fb' x = lookup fb x /\ In x processed') /\
+        (forall x, ~ In x processed ->
+           match tk_first (inr (t, fl, ml, s) :: r) x with
+           | None => lookup fb' x = lookup fb x /\ ~ In x processed'
+           | Some (t0, fl0, ml0, s0) =>
+               In x processed' /\
+               if Z.testbit fl0 1 then lookup fb' x = lookup fb x
+               else exists k' out, dec k' s0 (if Z.testbit fl0 0 then None else lookup f x) ml0 = inr out /\
+                                   lookup fb' x = Some out
+           end)).
+      { intros k2 fb2 H2 Hother Ht. destruct (IH _ _ _ _ _ H2) as [I1 I2]. split.
+        - intros x Hx. destruct (I1 x (or_intror Hx)) as [A B]. split; [|exact B].
+          rewrite A. apply Hother. intros ->. contradiction.
+        - intros x Hx. cbn [tk_first]. destruct (Z.eqb_spec x t).
+          + subst x. destruct (I1 t (or_introl eq_refl)) as [A B]. split; [exact B|].
+            destruct (Z.testbit fl 1); [now rewrite A|].
+            destruct Ht as [k' [out [D L]]]. exists k', out. split; [exact D | now rewrite A].
+          + assert (Hx' : ~ In x (t :: processed)) by (intros [E|E]; [now subst | contradiction]).
+            specialize (I2 x Hx'). destruct (tk_first r x) as [[[[t0 fl0] ml0] s0]|].
+            * destruct I2 as [A B]. split; [exact A|]. rewrite <- (Hother x n).
+              destruct (Z.testbit fl0 1); [exact B | exact B].
+            * destruct I2 as [A B]. split; [|exact B]. now rewrite A, Hother. }
+      destruct (Z.testbit fl 1) eqn:Drop.
+      * apply (Step _ _ H); [reflexivity | reflexivity].
+      * assert (Dec : forall dict, dict = (if Z.testbit fl 0 then None else lookup f t) ->
+           match dec k s dict ml with
+           | inl kind => inl (6, 10 + kind)
+           | inr out => tk_fold dec f r (S k) (t :: processed) (fb_add t out fb)
+           end = inr (processed', fb') ->
+           (forall x, In x processed -> lookup fb' x = lookup fb x /\ In x processed') /\
+           (forall x, ~ In x processed ->
+              match tk_first (inr (t, fl, ml, s) :: r) x with
+              | None => lookup fb' x = lookup fb x /\ ~ In x processed'
+              | Some (t0, fl0, ml0, s0) =>
+                  In x processed' /\
+                  if Z.testbit fl0 1 then lookup fb' x = lookup fb x
+                  else exists k' out, dec k' s0 (if Z.testbit fl0 0 then None else lookup f x) ml0 = inr out /\
+                                      lookup fb' x = Some out
+              end)).
+        { intros dict Hd K. destruct (dec k s dict ml) as [?|out] eqn:D; [discriminate|].
+          apply (Step _ _ K).
+          - intros x Hx. rewrite lookup_fb_add. destruct (Z.eqb_spec x t); [contradiction | reflexivity].
+          - exists k, out. split; [now rewrite <- Hd | now rewrite lookup_fb_add, Z.eqb_refl]. }
+        destruct (lookup f t) as [base|] eqn:B; destruct (Z.testbit fl 0) eqn:R; try discriminate;
+          eapply Dec; try exact H; reflexivity.
+Qed.
+
+Lemma tk_entries_no_inl dec f es k p fb r : tk_fold dec f es k p fb = inr r -> True.
+Proof. trivial. Qed.
+
+(* table keyed application: exactly what the patch says *)
+Lemma apply_table_keyed_exact dec f fmt offs p F : NoDup (map fst f) ->
+  apply_table_keyed dec f fmt offs p = inr F ->
+  forall x,
+    match tk_first (tk_entries p offs) x with
+    | None => lookup F x = lookup f x                                  (* unlisted: byte-identical *)
+    | Some (t, fl, ml, s) =>
+        if Z.testbit fl 1 then lookup F x = None                        (* dropped: absent *)
+        else exists k out, dec k s (if Z.testbit fl 0 then None else lookup f x) ml = inr out /\
+                           lookup F x = Some out                        (* replacement / diff result *)
+    end.
+Proof.
+  intros ND H x. unfold apply_table_keyed in H.
+  destruct (fmt =? T_iftk); cbn [negb] in H; [|discriminate].
+  destruct (tk_fold dec f (tk_entries p offs) 0 [] []) as [?|[processed fb]] eqn:E; cbn [bind] in H; [discriminate|].
+  inversion H; subst F. rewrite lookup_copy_unprocessed by assumption.
+  destruct (tk_fold_spec _ _ _ _ _ _ _ _ E) as [_ I2]. specialize (I2 x (fun K => K)).
+  destruct (tk_first (tk_entries p offs) x) as [[[[t fl] ml] s]|].
+  - destruct I2 as [A B]. apply memZ_true in A. rewrite A.
+    destruct (Z.testbit fl 1); [exact B | exact B].
+  - destruct I2 as [A B]. apply memZ_false in B. rewrite B. rewrite A. cbn.
+    destruct (lookup f x); reflexivity.
+Qed.
+
+(* a compatibility id mismatch is reported before any decoder call: whatever the decoder does *)
+Lemma tk_incompatible_no_decode f info p cid :
+  font_compat_id f (pi_tbl info) = inr cid ->
+  (bytes_eqb cid (pi_compat info) = false \/
+   exists fmt pcid offs, tk_header p = inr (fmt, pcid, offs) /\ bytes_eqb pcid cid = false) ->
+  forall dec, apply_table_keyed_patch dec f info p = inl (4, 0).
+Proof.
+  intros C H dec. unfold apply_table_keyed_patch. rewrite C. cbn [bind].
+  destruct H as [H|[fmt [pcid [offs [Hh Hc]]]]].
+  - rewrite H. reflexivity.
+  - destruct (bytes_eqb cid (pi_compat info)); [|reflexivity]. cbn [negb].
+    rewrite Hh. cbn [bind]. rewrite Hc. reflexivity.
+Qed.
+
+(* ---------- applied bits ---------- *)
+Lemma set_bit_spec : forall d i b d', set_bit d i b = Some d' ->
+  length d' = length d /\
+  forall k, nth_error d' k =
+            if Nat.eqb k i then option_map (fun x => Z.lor x (Z.shiftl 1 b)) (nth_error d k) else nth_error d k.
+Proof.
+  induction d as [|x r IH]; intros i b d' H; [destruct i; discriminate|].
+  destruct i; cbn in H.
+  - inversion H; subst. split; [reflexivity|]. intros [|k]; reflexivity.
+  - destruct (set_bit r i b) as [r'|] eqn:E; [|discriminate]. cbn in H. inversion H; subst.
+    destruct (IH _ _ _ E) as [L N]. split; [cbn; now rewrite L|].
+    intros [|k]; [reflexivity|]. cbn. apply N.
+Qed.
+
+Lemma testbit_or_mask x b j : 0 <= b -> 0 <= j ->
+  Z.testbit (Z.lor x (Z.shiftl 1 b)) j = Z.testbit x j || (j =? b).
+Proof.
+  intros Hb Hj. rewrite Z.lor_spec, Z.shiftl_spec by lia. f_equal.
+  destruct (Z.eqb_spec j b).
+  - subst. now rewrite Z.sub_diag.
+  - destruct (Z.ltb_spec j b).
+    + now rewrite Z.testbit_neg_r by lia.
+    + apply Z.bits_above_log2; [lia|]. cbn. lia.
+Qed.
